@@ -16,6 +16,8 @@ QUICK_ZONES = ["America/New_York", "Europe/Berlin", "Australia/Lord_Howe", "Aust
 
 
 def genparams():
+    # Extract.v writes the extracted model here (ignored by git, so absent in a fresh checkout)
+    os.makedirs(os.path.join(vlib.VERIF, "ocaml", "cron", "gen"), exist_ok=True)
     binp, out = vlib.go_build("genparams")
     if binp is None:
         return False, out
